@@ -8,6 +8,9 @@
 //     the calls of compositions with at most 4 parts.   (c) threads: see the C08 'sched' part (E-sched + TSan).
 #include "specmodel/specmodel.hpp"
 #include "common/rxh.hpp"
+#include "superscalar.hpp"
+#include "reciprocal.h"
+#include "jit_compiler_x86.hpp"
 #include <thread>
 
 using namespace rxh;
@@ -85,6 +88,34 @@ static std::vector<uint64_t> index_set(bool th) {
 	return v;
 }
 
+// (d) the compiled initialiser on SuperscalarHash programs the key alphabet does not produce: a real JIT cache whose eight programs are replaced by
+// synthetic ones holding every instruction type with one imm32 of a boundary set (8-/16-/32-bit edges), recompiled exactly as initCacheCompile
+// does; items written by randomx_init_dataset must equal initDatasetItem on the same cache (seeded change agent6_C08: an imm8 form for 128..255
+// shows in one key out of 45000).
+static std::string synthetic_case(uint32_t imm, vf::Result& R) {
+	using T = randomx::SuperscalarInstructionType;
+	randomx_cache* c = randomx_alloc_cache(RANDOMX_FLAG_JIT); if (!c) return "randomx_alloc_cache failed";
+	randomx_init_cache(c, g_key, 12);
+	c->reciprocalCache.clear(); for (int k = 0; k < 250; ++k) c->reciprocalCache.push_back(0x9E3779B97F4A7C15ull + k);   // real entries start above index 249
+	for (int j = 0; j < RANDOMX_CACHE_ACCESSES; ++j) {
+		auto& pr = c->programs[j]; unsigned n = 0;
+		for (int rep = 0; rep < 2; ++rep) for (int t = 0; t < (int)T::COUNT; ++t) {
+			int d = (j + t + rep * 3) & 7, sr = (j + 2 * t + 1 + rep) & 7; if ((T)t == T::IADD_RS && d == 5) d = 6;
+			randomx::Instruction& in = pr(n++); in.opcode = (uint8_t)t; in.dst = (uint8_t)d; in.src = (uint8_t)sr; in.mod = (uint8_t)(((j + t) & 3) << 2); in.setImm32(imm);
+			if ((T)t == T::IMUL_RCP) { uint32_t dv = imm + 2 * (uint32_t)j + (uint32_t)rep; while (dv == 0 || (dv & (dv - 1)) == 0) dv += 3; c->reciprocalCache.push_back(randomx_reciprocal(dv)); in.setImm32((uint32_t)c->reciprocalCache.size() - 1); }
+			if ((T)t == T::IROR_C) in.setImm32(imm & 63);
+		}
+		pr.setSize(n); pr.setAddressRegister((j * 3 + 1) & 7);
+	}
+	c->jit->enableWriting(); c->jit->generateSuperscalarHash(c->programs, c->reciprocalCache); c->jit->generateDatasetInitCode(); c->jit->enableExecution();
+	Guarded g; randomx_dataset ds; ds.memory = g.mem; ds.dealloc = nullptr; std::string d;
+	const uint64_t starts[3] = { 0, (N / 2) & ~3ull, N - 64 };
+	for (uint64_t st : starts) { randomx_init_dataset(&ds, c, st, 64);
+		for (uint64_t i = st; i < st + 64 && d.empty(); ++i) { uint8_t a[64]; randomx::initDatasetItem(c, a, i); R.n["synthetic_items"]++; if (memcmp(a, g.mem + 64 * i, 64)) { char t[160]; snprintf(t, sizeof t, "synthetic SuperscalarHash programs with imm32 0x%08x: item %llu written by the compiled initialiser differs from the interpreted item", imm, (unsigned long long)i); d = t; } } }
+	randomx_release_cache(c);
+	return d;
+}
+
 int main(int argc, char** argv) {
 	vf::Args args = vf::parse_args(argc, argv, "C08");
 	const bool th = args.thorough();
@@ -99,6 +130,8 @@ int main(int argc, char** argv) {
 		if (k == "shape") d = shape_case(g, (int)r.at("which").num(), (uint64_t)r.at("start").num(), (uint64_t)r.at("count").num());
 		else if (k == "partition") { std::vector<int> perm; for (auto& x : r.at("perm").a) perm.push_back((int)x.num()); d = partition_case(g, (int)r.at("which").num(), (uint64_t)r.at("base").num(), (unsigned)r.at("mask").num(), perm, R); }
 		else if (k == "item") { uint64_t i = (uint64_t)r.at("index").num(); uint8_t a[64], b[64], c[64]; ref_item(0, i, a); g_sc.item(i, b); randomx_dataset ds; ds.memory = g.mem; ds.dealloc = nullptr; uint64_t s = i & ~3ull; if (s + 4 > N) s = N - 4; randomx_init_dataset(&ds, g_cache[(int)r.at("which").num()], s, 4); memcpy(c, g.mem + 64 * i, 64); d = memcmp(a, b, 64) ? "light item differs from the specification" : memcmp(a, c, 64) ? "dataset item differs from the light item" : ""; }
+		else if (k == "synthetic") d = synthetic_case((uint32_t)r.at("imm32").num(), R);
+		else if (k == "single-call") { randomx_dataset ds; ds.memory = g.mem; ds.dealloc = nullptr; randomx_init_dataset(&ds, g_cache[1], 0, N); uint64_t i = (uint64_t)r.at("index").num(); uint8_t a[64]; ref_item(1, i, a); d = memcmp(a, g.mem + 64 * i, 64) ? "item differs from the light-mode item after one call for the whole dataset" : ""; }
 		else {   // whole dataset through both initialisers (a fault here terminates the replay by signal, which counts as reproduced)
 			Guarded g2[2]; for (int which = 0; which < 2; ++which) { randomx_dataset ds; ds.memory = g2[which].mem; ds.dealloc = nullptr; randomx_init_dataset(&ds, g_cache[which], 0, N); }
 			d = memcmp(g2[0].mem, g2[1].mem, randomx::DatasetSize) ? "compiled and interpreted initialisers differ" : "";
@@ -118,8 +151,16 @@ int main(int argc, char** argv) {
 				vf::set_current(vf::Json::obj().set("kind", "whole").set("finding_key", "c08:whole-crash").dump());
 				for (int which = 0; which < 2; ++which) {
 					randomx_dataset ds; ds.memory = g[which].mem; ds.dealloc = nullptr;
-					int nt = small ? 1 : 16; std::vector<std::thread> ths; uint64_t per = (N / nt) & ~3ull;
-					for (int t = 0; t < nt; ++t) { uint64_t b = per * t, cnt = t == nt - 1 ? N - b : per; ths.emplace_back([&, b, cnt, which] { randomx_dataset d2 = ds; randomx_init_dataset(&d2, g_cache[which], b, cnt); }); }
+					// production geometry: ONE call must be able to cover 2^25 items (2 GiB) and more - a 32-bit byte count inside an initialiser is invisible to
+					// any partition into 16 ranges (seeded change agent6_C01). Compiled initialiser: a single call for the whole dataset; interpreted
+					// initialiser (13 us per item): a single call for the first 2^25+8 items, the rest split over 14 threads.
+					std::vector<std::thread> ths; const uint64_t BIG1 = (1ull << 25) + 8;
+					if (small || which == 1 || N <= BIG1) ths.emplace_back([&, which] { randomx_dataset d2 = ds; randomx_init_dataset(&d2, g_cache[which], 0, N); });
+					else {
+						ths.emplace_back([&, which] { randomx_dataset d2 = ds; randomx_init_dataset(&d2, g_cache[which], 0, BIG1); });
+						const int nt = 14; uint64_t rest = N - BIG1, per = (rest / nt) & ~3ull;
+						for (int t = 0; t < nt; ++t) { uint64_t b = BIG1 + per * t, cnt = t == nt - 1 ? N - b : per; ths.emplace_back([&, b, cnt, which] { randomx_dataset d2 = ds; randomx_init_dataset(&d2, g_cache[which], b, cnt); }); }
+					}
 					for (auto& t : ths) t.join();
 					R.n["items_initialised"] += N;
 				}
@@ -146,8 +187,17 @@ int main(int argc, char** argv) {
 			total.merge(r);
 			}
 		} else {
-			vf::Result r = vf::run_shards(args, 32, [&](int shard) {
+			vf::Result r = vf::run_shards(args, 33, [&](int shard) {
 				vf::Result R; Guarded g; randomx_dataset ds; ds.memory = g.mem; ds.dealloc = nullptr;
+				if (shard == 32) {   // ONE call of the compiled initialiser for the whole dataset (>= 2^25 items), compared with light-mode items on a strided sample
+					vf::set_current(vf::Json::obj().set("kind", "single-call").dump()); vf::watchdog(1500);
+					randomx_init_dataset(&ds, g_cache[1], 0, N); alarm(0); R.n["items_initialised"] += N;
+					std::vector<uint64_t> smp; for (uint64_t i = 0; i < N; i += 4099) smp.push_back(i);
+					for (uint64_t c : { (uint64_t)0, (uint64_t)1 << 24, (uint64_t)1 << 25, N }) for (int d = -8; d < 8; ++d) { int64_t i = (int64_t)c + d; if (i >= 0 && (uint64_t)i < N) smp.push_back((uint64_t)i); }
+					for (uint64_t i : smp) { uint8_t a[64]; ref_item(1, i, a); R.n["single_call_items_compared"]++;
+						if (memcmp(a, g.mem + 64 * i, 64)) { vf::Violation v; v.key = "c08:single-call"; v.what = "after ONE randomx_init_dataset call for the whole dataset (compiled initialiser), item " + std::to_string(i) + " differs from the light-mode item"; v.replay = vf::Json::obj().set("kind", "single-call").set("index", (unsigned long long)i); R.viol.push_back(v); break; } }
+					return R;
+				}
 				for (size_t k = shard; k < idx.size(); k += 32) {
 					uint64_t i = idx[k]; uint8_t a[64], b[64]; ref_item(0, i, a); g_sc.item(i, b); R.n["items_vs_model"]++;
 					uint64_t s = i & ~3ull; if (s + 4 > N) s = N - 4;
@@ -201,12 +251,29 @@ int main(int argc, char** argv) {
 		}, true, 1800);
 		total.merge(r);
 	}
+	// ---------------- (d) synthetic SuperscalarHash programs through the compiled initialiser
+	{
+		static const uint32_t IM[] = { 0, 1, 2, 3, 7, 8, 13, 31, 32, 33, 63, 64, 0x7F, 0x80, 0x81, 0xC4, 0xDC, 0xFF, 0x100, 0x7FF, 0x800, 0x7FFF, 0x8000, 0xFFFF, 0x10000, 0x7FFFFF, 0x800000, 0x7FFFFFFF, 0x80000000u, 0x80000001u,
+			0xFFFFFF00u, 0xFFFFFF7Fu, 0xFFFFFF80u, 0xFFFFFF81u, 0xFFFF7FFFu, 0xFFFF8000u, 0xFFFFFFFEu, 0xFFFFFFFFu, 0x12345678u, 0xEDCBA987u };
+		const int NI = (int)(sizeof IM / sizeof IM[0]);
+		vf::Result r = vf::run_shards(args, small ? 8 : 4, [&](int shard) {
+			vf::Result R;
+			for (int k = shard; k < NI; k += (small ? 8 : 4)) {
+				if (!small && !th && (k % 5)) continue;   // production geometry: cache initialisation costs a second per case
+				vf::Json rp = vf::Json::obj().set("kind", "synthetic").set("imm32", (unsigned long long)IM[k]); vf::set_current(rp.dump());
+				std::string d = synthetic_case(IM[k], R); R.n["synthetic_caches"]++;
+				if (!d.empty() && R.viol.size() < 3) { vf::Violation v; v.key = "c08:synthetic"; v.what = d; v.replay = rp; R.viol.push_back(v); }
+			}
+			return R;
+		}, true, 1800);
+		total.merge(r);
+	}
 	vf::Evidence ev; ev.level = "model_checking";
 	uint64_t states = total.n["shape_calls"] + total.n["transitions"];
 	ev.coverage.set("states", (unsigned long long)states).set("transitions", (unsigned long long)total.n["transitions"]).set("traces_validated_against_impl", (unsigned long long)(total.n["shape_calls"] + total.n["partition_histories"]))
 		.set("evaluations", (unsigned long long)(total.n["items_vs_model"] + total.n["items_initialised"] + total.n["transitions"])).set("distinct_nontrivial", (unsigned long long)(total.n["items_vs_model"] + total.n["partition_histories"]))
 		.set("exhaustive", !total.incomplete)
-		.set("rule", std::string("profile ") + RX_PROFILE + ": (a) " + (small || th ? "the whole dataset is initialised through the public call by the compiled and by the interpreted initialiser and compared byte for byte" : "every item of the index set is initialised through the public call by both initialisers") + "; index set (first/last 4096, +-64 around every power of two, strided) against initDatasetItem and the specification model; (b) states = dataset-image contents after a call history, explored on the implementation: every (start,count) with start in 24-item windows at the beginning/middle/end and count 0..12, every composition of a 12-item range (2048) into consecutive calls and every order of the calls of compositions with <= 4 parts; after EVERY call the covered items equal the reference and every other byte of the observation window (whole dataset on mini) is still canary; dataset bracketed by PROT_NONE pages");
+		.set("rule", std::string("profile ") + RX_PROFILE + ": (a) " + (small || th ? "the whole dataset is initialised through the public call by the compiled initialiser (ONE call) and by the interpreted initialiser (production geometry: one call for the first 2^25+8 items, 14 threads for the rest) and compared byte for byte" : "every item of the index set is initialised through the public call by both initialisers, and ONE call of the compiled initialiser covers the whole dataset (strided sample compared with light-mode items)") + "; index set (first/last 4096, +-64 around every power of two, strided) against initDatasetItem and the specification model; (b) states = dataset-image contents after a call history, explored on the implementation: every (start,count) with start in 24-item windows at the beginning/middle/end and count 0..12, every composition of a 12-item range (2048) into consecutive calls and every order of the calls of compositions with <= 4 parts; after EVERY call the covered items equal the reference and every other byte of the observation window (whole dataset on mini) is still canary; dataset bracketed by PROT_NONE pages; (d) JIT caches whose eight SuperscalarHash programs are synthetic (every instruction type twice, one imm32 of a 40-value boundary set, reciprocal indices above 249), recompiled as initCacheCompile does: items written by the compiled initialiser == initDatasetItem");
 	ev.assumptions = { "one key; item values for other keys are covered by C02/C09", "on the full profile the canary window is +-64 items around the call (guard pages catch the ends)" };
 	return vf::finish(args, total, ev, true, true);
 }
